@@ -397,11 +397,15 @@ fn a_sweep_net(c: &Ctx, b: &[u8], _: u16) -> Res {
 fn a_sweep_transport(c: &Ctx, b: &[u8], _: u16) -> Res {
     sweep_res(c, "transport", b)
 }
+fn a_sweep_packet(c: &Ctx, b: &[u8], _: u16) -> Res {
+    sweep_res(c, "packet", b)
+}
 
 pub const APIS: &[Api] = &[
     Api { name: "sweep:link", m: "sweep", fam: "sweep", entry: "sweep", upto: "all", f: a_sweep_link },
     Api { name: "sweep:net", m: "sweep", fam: "sweep", entry: "sweep", upto: "all", f: a_sweep_net },
     Api { name: "sweep:transport", m: "sweep", fam: "sweep", entry: "sweep", upto: "all", f: a_sweep_transport },
+    Api { name: "sweep:packet", m: "sweep", fam: "sweep", entry: "sweep", upto: "all", f: a_sweep_packet },
     Api { name: "SlicedPacket::from_ethernet", m: "strict", fam: "slice", entry: "eth", upto: "all", f: a_sliced_eth },
     Api { name: "LaxSlicedPacket::from_ethernet", m: "lax", fam: "slice", entry: "eth", upto: "all", f: a_lax_sliced_eth },
     Api { name: "PacketHeaders::from_ethernet_slice", m: "strict", fam: "struct", entry: "eth", upto: "all", f: a_headers_eth },
